@@ -503,6 +503,13 @@ func lexQString(l *lexer) stateFn {
 					l.ErrorfAt(bline, bcol, `invalid escape sequence: \`+string(c))
 				}
 				text = append(text, '\\')
+				if c == '\n' {
+					// A line break stays a line break: the
+					// indentation of the next line is stripped.
+					text = append(text, '\n')
+					over = false
+					continue
+				}
 			}
 			fallthrough
 		default:
